@@ -123,8 +123,9 @@ def build_pair(seed, idx):
 
 
 def run_pair(job):
-    """job = (seed, pair index, max boundaries per pair or 0 for all)."""
-    seed, idx, cap = job
+    """job = (seed, pair index, max boundaries per pair or 0 for all[, first boundary, last boundary])."""
+    seed, idx, cap = job[:3]
+    k_lo, k_hi = (job[3], job[4]) if len(job) > 4 else (1, None)
     out = {'idx': idx, 'engine': 'S', 'runs': 0, 'violations': [], 'digests': [], 'nontrivial': 0,
            'counters': {}, 'calls_by_name': {}, 'soft': [], 'rejects': [], 'steps': 0, 'sim_seconds': 0.0,
            'wall': 0.0, 'sched_keys': [], 'point_lines': [], 'harness_errors': 0, 'pair': None, 'nt_digests': []}
@@ -139,6 +140,8 @@ def run_pair(job):
     out['pair'] = (name_a, name_b, nb)
     nb = max(nb, 2)
     ks = list(range(1, int(nb * 1.05) + 2))
+    if k_hi is not None:
+        ks = [k for k in ks if k_lo <= k <= k_hi]
     if cap and len(ks) > cap:
         ks = sorted(random.Random(mix(seed, SWEEP_OFFSET + 7 * idx + 1)).sample(ks, cap))
     sk, pl = set(), set()
